@@ -38,7 +38,7 @@ def rand_cfg(rnd):
     if rnd.random() < .3: o['stylesheet.intUnit'] = rnd.choice(['px', 'pt', 'rem', ''])
     if rnd.random() < .3: o['stylesheet.floatUnit'] = rnd.choice(['em', 'rem', '%'])
     if rnd.random() < .3: o['stylesheet.shortHex'] = rnd.random() < .5
-    if rnd.random() < .15: o['stylesheet.unitAliases'] = rnd.choice([{'e': 'em', 'p': '%', 'x': 'ex', 'r': 'rem'}, {'p': 'pt', 'v': 'vh'}, {}])
+    if rnd.random() < .15: o['stylesheet.unitAliases'] = rnd.choice([{'e': 'em', 'p': '%', 'x': 'ex', 'r': 'rem'}, {'p': 'pt', 'v': 'vh'}, {}, {'e': 'em', 'p': '%', 'n': '', 'q': 'Q'}, {'n': ''}])
     if o: c['options'] = o
     return c
 
@@ -67,7 +67,7 @@ def gen_values(rnd, key_is_color):
         elif k < .85 and (i == 0 or not prev_unit or neg): txt = '.%d' % rnd.choice([5, 25, 75])
         else: txt = str(rnd.choice([1, 2, 10]))
         if neg and F(txt if not txt.startswith('.') else '0' + txt) == 0: neg = False
-        unit = rnd.choice(['', '', '', 'p', 'e', 'x', 'r', 'px', 'vh', 'pt', '%'])
+        unit = rnd.choice(['', '', '', 'p', 'e', 'x', 'r', 'px', 'vh', 'pt', '%', 'n', 'q'])
         if i > 0:
             if neg:
                 # `-` right after a unit-less number is a separator, so a negative value then needs `--`
@@ -87,9 +87,15 @@ PINNED = {'stylesheet.unitless': ['z-index', 'line-height', 'opacity', 'font-wei
 
 
 def pinned_options(case, opt):
+    """documented defaults, then the layers of the case in the documented order: global config for the type, for the syntax, the call's own"""
     opt = dict(opt); uo = (case['c'].get('options') or {})
+    gc = case.get('gc') or {}
+    sy = case['c'].get('syntax', 'css')
     for k, dv in PINNED.items():
-        if k not in uo: opt[k] = dv
+        val = dv
+        for layer in (gc.get('stylesheet', {}).get('options', {}), gc.get(sy, {}).get('options', {}), uo):
+            if k in layer: val = layer[k]
+        opt[k] = val
     return opt
 
 
@@ -135,7 +141,13 @@ def cases(tier, seed, prop):
                 sfx, items = gen_values(rnd, iscol)
                 imp = rnd.random() < .2
                 parts.append(key + sfx + ('!' if imp else '')); spec.append([key, items, imp])
-            out.append({'s': '+'.join(parts), 'c': rand_cfg(rnd), 'g': 'values', 'spec': spec})
+            case = {'s': '+'.join(parts), 'c': rand_cfg(rnd), 'g': 'values', 'spec': spec}
+            if rnd.random() < .15:
+                sy_ = case['c'].get('syntax', 'css')
+                case['gc'] = rnd.choice([{sy_: {'options': {'stylesheet.intUnit': 'rem', 'stylesheet.floatUnit': '%'}}}, {'stylesheet': {'options': {'stylesheet.intUnit': 'pt'}}, sy_: {'options': {'stylesheet.intUnit': 'Q', 'stylesheet.shortHex': False}}},
+                                         {sy_: {'options': {'stylesheet.unitAliases': {'p': 'pc', 'n': ''}, 'stylesheet.unitless': ['padding', 'margin']}}}, {'stylesheet': {'options': {'stylesheet.floatUnit': 'vw'}}}])
+                case['g'] = 'values-global'
+            out.append(case)
     elif prop == 'C06':
         out = expand_cases_C06(tier, seed)
     else:   # correspondence / totality mixes (C07)
@@ -190,11 +202,11 @@ def expand_cases_C06(tier, seed):
                     out.append({'s': '%s:%s' % (k, f), 'c': {}, 'g': 'keyword', 'key': k, 'kw': w})
     # user snippets: override and new key
     for _ in range(60 if tier == 'quick' else 600):
-        k = rnd.choice([x for x in keys if x != 'lg']) if rnd.random() < .5 else rnd.choice(['zzq', 'myprop', 'xx', 'qq', 'foo'])     # `lg` is the hard-wired gradient shortcut, resolved before any snippet lookup
+        k = rnd.choice([x for x in keys if x != 'lg']) if rnd.random() < .5 else rnd.choice(['zzq', 'myprop', 'xx', 'qq', 'foo', 'myPad', 'Zx', 'qW'])     # `lg` is the hard-wired gradient shortcut, resolved before any snippet lookup
         body = rnd.choice(['my-prop:${1:v}', 'other:a|b', 'raw ${1} text', 'foo-bar', 'grid-x:auto|none'])
         out.append({'s': k, 'c': {'snippets': {k: body}}, 'g': 'user', 'key': k, 'body': body})
         # the same user snippet supplied through the global configuration (for the type, or for the syntax)
-        body2 = rnd.choice(['my-prop:${1:v}', 'other:a|b', 'raw ${1} text', 'grid-x:auto|none', 'width:100%;height:100%', 'margin:0 auto;padding:0 ${1}'])
+        body2 = rnd.choice(['my-prop:${1:v}', 'other:a|b', 'raw ${1} text', 'grid-x:auto|none', 'grid-q:image-set(url(${1:file}) 1x)|none', 'w-x:f(g(h(${1:deep})))|auto', 'width:100%;height:100%', 'margin:0 auto;padding:0 ${1}'])
         layer = rnd.choice(['stylesheet', 'css'])
         out.append({'s': k, 'c': {}, 'gc': {layer: {'snippets': {k: body2}}}, 'g': 'user', 'key': k, 'body': body2})
         # a raw snippet may hold several declarations on one line
@@ -225,7 +237,7 @@ def line_of(o):
 
 def effective_options(c):
     from emmet.config import Config
-    return Config(mk(c)).options
+    return Config(mk(c)).options          # (C05 / C06 read only between / after from here; everything the statements name is pinned)
 
 
 def oracle_C05(case, o):
